@@ -10,6 +10,7 @@ code or any signal, a failing as/ld may or may not leave junk in its output), al
 import ChibiVerif.Model.DriverProc
 import ChibiVerif.Lemmas.DriverProcLemmas
 import ChibiVerif.Lemmas.DriverProcConcurrent
+import ChibiVerif.Lemmas.DriverProcOutputs
 
 namespace ChibiVerif.Props.C14
 open ChibiVerif.DriverProc
@@ -101,6 +102,226 @@ theorem C14_no_temps (env : Env P) (cmd : Cmd P) (fs : FS P) :
 example : created (runCmd exEnv exCmd exFs).1.log = [100, 101] := by decide
 example : (runCmd exEnv exCmd exFs).2 = [(22, ⟨.junk, []⟩), (12, ⟨.obj, [1]⟩), (1, ⟨.orig, [1]⟩), (2, ⟨.orig, [2]⟩), (3, ⟨.orig, [3]⟩)] := by
   decide
+
+/-- **C14 (a failing front end leaves no partial output).**  Under the freshness assumptions `Setup`
+    (mkstemp hands out pairwise distinct names `ts` that are not named on the command line and did not
+    exist; the requested outputs are pairwise distinct and are not inputs), for EVERY fault schedule:
+    if the log of the run contains a failing `wait` for cc1 (exit code or signal), then the inputs split
+    as `pre ++ u :: post` where `u` is the translation unit whose front end failed — it is the
+    `cCount pre`-th cc1 invocation of the schedule — and in the terminal world
+    * the output of every earlier unit (`-S`, `-c`, `-E -o`) is complete: right class, made from its source;
+    * every other path — in particular the output path of `u` (`unitOutput`, or the executable when
+      linking) and the outputs of the units after `u` — has exactly the content it had before the run
+      (absent stays absent);
+    * nothing was started after the failing wait: the rest of the log is the atexit cleanup. -/
+theorem C14_no_partial_output (env : Env P) (cmd : Cmd P) (fs : FS P) (ts : List P)
+    (S : Setup env cmd fs ts) (st : Status)
+    (h : Event.wait .cc1 st ∈ (runCmd env cmd fs).1.log) (hbad : st.wait ≠ 0) :
+    ∃ (pre : List (Input P)) (u : Input P) (post : List (Input P)),
+      cmd.inputs = pre ++ u :: post ∧ effKind cmd.mode u.kind = .C ∧
+      st = (env.sched .cc1 (cCount cmd pre)).status ∧
+      (∀ v ∈ pre, isUnit cmd v = true →
+        (runCmd env cmd fs).2.get (unitOutput cmd v) = some ⟨unitCls cmd, fs.origins v.path⟩) ∧
+      (∀ p, (∀ v ∈ pre, isUnit cmd v = true → unitOutput cmd v ≠ p) →
+        (runCmd env cmd fs).2.get p = fs.get p) ∧
+      (∃ l c, (runCmd env cmd fs).1.log = l ++ [Event.wait .cc1 st] ++ c ∧ ∀ e ∈ c, Event.isCleanup e = true) := by
+  obtain ⟨code, e, efs, hr, hcr, hcase⟩ := runCmd_spec env cmd fs
+  obtain ⟨_, h2, _, h4⟩ := cleanupAll_spec code e.tmpfiles e efs
+  have hbadE : Event.bad (Event.wait Prog.cc1 st : Event P) = true := by simp [Event.bad, hbad]
+  rw [hr] at h ⊢
+  rw [h2] at h ⊢
+  have hin : Event.wait Prog.cc1 st ∈ e.log := by
+    simp only [List.mem_append, List.mem_map, List.mem_singleton] at h
+    rcases h with (h | ⟨_, _, h⟩) | h
+    · exact h
+    · cases h
+    · cases h
+  rcases hcase with ⟨_, _, hnb⟩ | ⟨_, hd, l, b, hl, hlb, hb⟩
+  · have := hnb _ hin; rw [hbadE] at this; cases this
+  · have hbe : b = Event.wait Prog.cc1 st := by
+      rw [hl] at hin
+      rcases List.mem_append.mp hin with h | h
+      · have := hlb _ h; rw [hbadE] at this; cases this
+      · simpa using h.symm
+    subst hbe
+    have hlast : e.log.getLast? = some (Event.wait Prog.cc1 st) := by rw [hl]; simp
+    -- rejected commands never run cc1
+    by_cases hacc : cmd.inputs.isEmpty = false ∧ multiO cmd = false
+    · have hcomp : compile cmd = compileLoop cmd 0 cmd.inputs := by
+        unfold compile; simp [hacc.1, hacc.2]
+      have hloop := loop_lemma env cmd fs ts S cmd.inputs [] (init cmd, fs) (by simp) (loopInv_init cmd fs ts)
+      simp only [totalTemps] at hloop
+      rw [← hcomp, hd] at hloop
+      obtain ⟨pre, u, post, y, hsplit, hI, hF⟩ := hloop st hlast
+      obtain ⟨hk, hst, hts, hyt, hfr⟩ := hF st hlast
+      refine ⟨pre, u, post, hsplit, hk, by rw [hst, hI.ncc1], ?_, ?_, ⟨l, e.tmpfiles.map Event.unlink ++ [Event.exit code], ?_, ?_⟩⟩
+      · intro v hv hvu
+        have hvin : v ∈ cmd.inputs := by rw [hsplit]; simp [hv]
+        have hnt : unitOutput cmd v ∉ e.tmpfiles :=
+          fun hm => S.notReq _ (hts _ hm) (unitOutput_requested hvin hvu)
+        rw [h4, if_neg hnt, hfr _ hnt]
+        exact hI.units v hv hvu
+      · intro p hp
+        rw [h4]
+        by_cases hpt : p ∈ e.tmpfiles
+        · rw [if_pos hpt, S.absent p (hts p hpt)]
+        · rw [if_neg hpt, hfr p hpt]
+          exact hI.frame p (fun hy => hpt (hyt p hy)) hp
+      · rw [hl]; simp
+      · intro x hx
+        simp only [List.mem_append, List.mem_map, List.mem_singleton] at hx
+        rcases hx with ⟨_, _, rfl⟩ | rfl <;> rfl
+    · exfalso
+      have hfail : ∃ why, compile cmd = [Act.fail why] := by
+        unfold compile
+        by_cases h1 : cmd.inputs.isEmpty = true
+        · exact ⟨_, by simp [h1]⟩
+        · have h1' : cmd.inputs.isEmpty = false := by simpa using h1
+          have h2 : multiO cmd = true := by
+            cases hm : multiO cmd with
+            | true => rfl
+            | false => exact absurd ⟨h1', hm⟩ hacc
+          exact ⟨_, by simp [h1', h2]⟩
+      obtain ⟨why, hwhy⟩ := hfail
+      rw [hwhy] at hd
+      simp only [doActs, doAct] at hd
+      injection hd with hd
+      have : e.log = [Event.error why] := by rw [← hd]; rfl
+      rw [this] at hlast
+      simp at hlast
+
+/-- non-vacuity: `-S a.c b.c c.c` with outputs 11, 21, 31 pre-existing (sentinel contents), the front end
+    of `b.c` killed by a signal: `a.s` is complete, `b.s` and `c.s` still hold their sentinels -/
+private def exS : Cmd Nat :=
+  { mode := .S, out := none, aout := 99, inputs := [⟨1, .C, 11, 12⟩, ⟨2, .C, 21, 22⟩, ⟨3, .C, 31, 32⟩] }
+private def exSEnv : Env Nat :=
+  { mode := .S, sched := fun p k => if p = .cc1 ∧ k = 1 then ⟨.signal 8, false⟩ else .ok, fresh := fun _ => none }
+private def exSFs : FS Nat :=
+  [(1, ⟨.orig, [1]⟩), (2, ⟨.orig, [2]⟩), (3, ⟨.orig, [3]⟩), (11, ⟨.orig, [7]⟩), (21, ⟨.orig, [8]⟩), (31, ⟨.orig, [9]⟩)]
+
+example : Setup exSEnv exS exSFs [] where
+  mode := rfl
+  fresh := by intro k t h; simp at h
+  enough := by decide
+  nodup := by decide
+  notInput := by simp
+  notReq := by simp
+  absent := by simp
+  reqNodup := by decide
+  reqNotInput := by decide
+
+example : Event.wait .cc1 (.signal 8) ∈ (runCmd exSEnv exS exSFs).1.log ∧ (Status.signal 8).wait ≠ 0 := by decide
+example : (runCmd exSEnv exS exSFs).2.get 11 = some ⟨.asm, [1]⟩ ∧ (runCmd exSEnv exS exSFs).2.get 21 = some ⟨.orig, [8]⟩ ∧
+    (runCmd exSEnv exS exSFs).2.get 31 = some ⟨.orig, [9]⟩ ∧ (runCmd exSEnv exS exSFs).1.phase = .done 1 := by decide
+
+/-- **C14 (success: exactly the requested outputs).**  Under `Setup`, for a command the driver accepts and
+    a schedule without faults: the driver exits with status 0; every requested per-unit output holds the
+    complete translation of its own source; when linking, the executable is linked from all inputs in
+    command-line order; every path that is NOT a requested output — every temporary, every input, `a.out`
+    when not linking, `<stem>.o` of a `.s` input when linking — has exactly the content it had before
+    (absent stays absent). -/
+theorem C14_success_outputs (env : Env P) (cmd : Cmd P) (fs : FS P) (ts : List P)
+    (S : Setup env cmd fs ts) (hacc : Accepted cmd)
+    (hnf : ∀ prog k, (env.sched prog k).status.wait = 0) :
+    (runCmd env cmd fs).1.phase = .done 0 ∧
+    (∀ u ∈ cmd.inputs, isUnit cmd u = true →
+      (runCmd env cmd fs).2.get (unitOutput cmd u) = some ⟨unitCls cmd, fs.origins u.path⟩) ∧
+    (cmd.mode = .link → (runCmd env cmd fs).2.get (cmd.out.getD cmd.aout) =
+      some ⟨.exe, cmd.inputs.flatMap (fun u => fs.origins u.path)⟩) ∧
+    (∀ p, p ∉ requested cmd → (runCmd env cmd fs).2.get p = fs.get p) := by
+  obtain ⟨code, e, efs, hr, hcr, hcase⟩ := runCmd_spec env cmd fs
+  obtain ⟨h1, _, _, h4⟩ := cleanupAll_spec code e.tmpfiles e efs
+  have hcomp := compile_accepted hacc
+  have hlog := doActs_logOK env (compile cmd) (init cmd, fs) (compile cmd) (totalTemps cmd cmd.inputs)
+    (fun _ h => h) (by rw [hcomp, compileLoop_mkCount]; simp [init]) (by intro x hx; simp [init] at hx)
+  rcases hcase with ⟨hc0, hd, _⟩ | ⟨_, hd, l, b, hl, _, hb⟩
+  · subst hc0
+    have hloop := loop_lemma env cmd fs ts S cmd.inputs [] (init cmd, fs) (by simp) (loopInv_init cmd fs ts)
+    simp only [totalTemps] at hloop
+    rw [← hcomp, hd] at hloop
+    obtain ⟨y, hI, htf, hfs⟩ := hloop
+    simp only at htf hfs
+    have hsub : ∀ t ∈ e.tmpfiles, t ∈ ts := fun t ht => by
+      rw [htf, hI.tmps] at ht; exact List.mem_of_mem_take ht
+    have hexe : cmd.mode = .link → cmd.out.getD cmd.aout ∈ requested cmd := by
+      intro hm; simp [requested, hm]
+    rw [hr]
+    refine ⟨h1, ?_, ?_, ?_⟩
+    · intro u hu huu
+      have hnt : unitOutput cmd u ∉ e.tmpfiles := fun hm => S.notReq _ (hsub _ hm) (unitOutput_requested hu huu)
+      rw [h4, if_neg hnt, hfs]
+      have : ¬ (cmd.mode = .link ∧ y.1.ldArgs ≠ []) := fun h => isUnit_not_link huu h.1
+      rw [if_neg this]
+      exact hI.units u hu huu
+    · intro hm
+      have hnt : cmd.out.getD cmd.aout ∉ e.tmpfiles := fun h => S.notReq _ (hsub _ h) (hexe hm)
+      have hld := hI.ldOrig hm
+      have hne : y.1.ldArgs ≠ [] := by
+        intro h0
+        rw [h0] at hld
+        simp only [List.map_nil] at hld
+        exact hacc.1 (List.map_eq_nil_iff.mp hld.symm)
+      rw [h4, if_neg hnt, hfs, if_pos ⟨hm, hne⟩, FS.get_set_self]
+      rw [List.flatMap_def, hld, ← List.flatMap_def]
+    · intro p hp
+      rw [h4]
+      by_cases hpt : p ∈ e.tmpfiles
+      · rw [if_pos hpt, S.absent p (hsub p hpt)]
+      · rw [if_neg hpt, hfs]
+        have hframe : y.2.get p = fs.get p := by
+          apply hI.frame p (by rw [← htf]; exact hpt)
+          intro u hu huu e'
+          exact hp (e' ▸ unitOutput_requested hu huu)
+        by_cases hl : cmd.mode = .link ∧ y.1.ldArgs ≠ []
+        · rw [if_pos hl, FS.get_set_ne _ _ (fun e' => hp (e' ▸ hexe hl.1))]
+          exact hframe
+        · rw [if_neg hl]; exact hframe
+  · exfalso
+    rw [hd] at hlog
+    have hbl : b ∈ e.log := by rw [hl]; simp
+    have := hlog b hbl
+    cases b with
+    | wait prog st =>
+      obtain ⟨k, hk⟩ := this
+      simp [Event.bad, hk, hnf prog k] at hb
+    | error why =>
+      simp only at this
+      rw [hcomp] at this
+      obtain ⟨u, hu, hk⟩ := compileLoop_no_fail cmd 0 cmd.inputs why this
+      exact hacc.2.2 u hu hk
+    | mkstempFailed =>
+      obtain ⟨k, _, hk, hf⟩ := this
+      have hk' : k < ts.length := Nat.lt_of_lt_of_le hk S.enough
+      rw [S.fresh k ts[k] (List.getElem?_eq_getElem hk')] at hf
+      cases hf
+    | mkstemp p => simp [Event.bad] at hb
+    | spawn p i o => simp [Event.bad] at hb
+    | unlink p => simp [Event.bad] at hb
+    | exit c => simp [Event.bad] at hb
+
+/-- non-vacuity: `chibicc a.c b.s c.o -lm`-like link command (paths 1, 2, 3, 4; `-o 50`) with temporaries
+    100, 101, 102; the stale files 50 (the old executable) and 22 (`b.o`) exist before -/
+private def exL : Cmd Nat :=
+  { mode := .link, out := some 50, aout := 99,
+    inputs := [⟨1, .C, 11, 12⟩, ⟨2, .asm, 21, 22⟩, ⟨3, .obj, 31, 32⟩, ⟨4, .lib, 41, 42⟩] }
+private def exLEnv : Env Nat := { mode := .link, sched := fun _ _ => .ok, fresh := fun k => [100, 101, 102][k]? }
+private def exLFs : FS Nat := [(1, ⟨.orig, [1]⟩), (2, ⟨.orig, [2]⟩), (3, ⟨.orig, [3]⟩), (50, ⟨.orig, [7]⟩), (22, ⟨.orig, [8]⟩)]
+
+example : Setup exLEnv exL exLFs [100, 101, 102] where
+  mode := rfl
+  fresh := fun _ _ h => h
+  enough := by decide
+  nodup := by decide
+  notInput := by decide
+  notReq := by decide
+  absent := by decide
+  reqNodup := by decide
+  reqNotInput := by decide
+
+example : Accepted exL := ⟨by decide, by decide, by decide⟩
+
+example : (runCmd exLEnv exL exLFs).2 =
+    [(50, ⟨.exe, [1, 2, 3]⟩), (1, ⟨.orig, [1]⟩), (2, ⟨.orig, [2]⟩), (3, ⟨.orig, [3]⟩), (22, ⟨.orig, [8]⟩)] := by decide
 
 /-- **C14 (concurrent invocations do not interfere).**  Two drivers run on ONE file system, their steps
     (each `mkstemp`, spawn, `wait`, `unlink`, exit) interleaved in ANY order `il`.  If neither writes
